@@ -161,7 +161,7 @@ def oracle_ranking(case, rec):
                         f'(n={n}, seed={case["k"]})')
 
 
-ORACLES = {'C03/id-pair': oracle_identity, 'C03/many-strata': oracle_identity, 'C03/exception': oracle_identity, 'C03/high-card': oracle_identity, 'C03/views': oracle_identity, 'C03/wide': oracle_identity, 'C03/identity': oracle_identity, 'C03/exhaustive': oracle_identity, 'C03/heuristic-flag': oracle_identity,
+ORACLES = {'C03/near-copy': oracle_identity, 'C03/long-tail': oracle_identity, 'C03/id-pair': oracle_identity, 'C03/many-strata': oracle_identity, 'C03/exception': oracle_identity, 'C03/high-card': oracle_identity, 'C03/views': oracle_identity, 'C03/wide': oracle_identity, 'C03/identity': oracle_identity, 'C03/exhaustive': oracle_identity, 'C03/heuristic-flag': oracle_identity,
            'C03/corollaries': oracle_corollaries, 'C03/constant-feature': oracle_corollaries,
            'C03/identifier-feature': oracle_corollaries, 'C03/self': oracle_corollaries, 'C03/ranking': oracle_ranking}
 
@@ -237,6 +237,8 @@ def run(ctx):
         Clause('C03/ranking', planted_case, oracle_ranking, quick=48, thorough=3000, quick_shards=6),
         Clause('C03/high-card', lambda: gens.highcard_pair(), oracle_identity, quick=24, thorough=600, quick_shards=8),
         Clause('C03/views', lambda: gens.lagged_pair(), oracle_identity, quick=200, thorough=10000, quick_shards=2),
+        Clause('C03/near-copy', lambda: gens.nearcopy_pair(), oracle_identity, quick=12, thorough=600, quick_shards=4),
+        Clause('C03/long-tail', lambda: gens.longtail_pair(), oracle_identity, quick=1, thorough=8, quick_shards=1, thorough_shards=8),
         Clause('C03/id-pair', lambda: gens.idpair_pair(), oracle_identity, quick=1, thorough=12, quick_shards=1, thorough_shards=12),
         Clause('C03/many-strata', lambda: gens.manystrata_pair(), oracle_identity, quick=2, thorough=32, quick_shards=2, thorough_shards=16),
         Clause('C03/wide', lambda: gens.wide_pair(), oracle_identity, quick=2, thorough=32, quick_shards=2, thorough_shards=16),
